@@ -679,6 +679,7 @@ func (x *Exec) resetPath() {
 	x.reached = map[string]bool{}
 	x.mapOrder = 1
 	x.mapRot = -1
+	x.mapWalks = 0
 	x.mdl = nil
 	x.auxVars = x.auxVars[:0]
 	x.stubCache = map[stubKey]strVal{}
